@@ -113,6 +113,16 @@ func (c20) Run(c *Ctx, i int) CaseResult {
 				// a service named twice with others in between: its FIRST occurrence is its rank
 				p = append(p, p[r.Intn(len(p)-1)])
 			}
+			if r.Intn(3) == 0 {
+				// entries that name no service (blank, unknown) and repetitions ANYWHERE in the list, the front included:
+				// what follows them keeps its order
+				for n := 1 + r.Intn(2); n > 0; n-- {
+					at := r.Intn(len(p) + 1)
+					ins := []string{"", "nowhere", p[r.Intn(len(p))], p[0]}[r.Intn(4)]
+					p = append(p[:at], append([]string{ins}, p[at:]...)...)
+				}
+				feats["priorities-with-blanks-or-repeats"] = true
+			}
 			in.Spec.Priorities = p
 			in.Spec.PrioritiesFirst = r.Intn(2) == 0
 			feats["priorities"] = true
